@@ -181,7 +181,7 @@ package keeper
 //@ layer L2
 //@ ensures[set] st.burnLimits.has[limit.Denom] && st.burnLimits.denom[limit.Denom] == limit.Denom
 //@ ensures[set.amt] !st.burnLimits.nil[limit.Denom] && st.burnLimits.amt[limit.Denom] == (limit.Amount.isnil ? 0 : limit.Amount.v)
-//@ modifies st.burnLimits[limit.Denom]
+//@ modifies st.burnLimits[limit.Denom], st.limitList, st.nLimits
 
 // ---- token pairs
 
@@ -196,12 +196,12 @@ package keeper
 //@ layer L2
 //@ ensures[set] st.tokenPairs.has[tokenPair.RemoteDomain][tokenPair.RemoteToken]
 //@ ensures[set.val] st.tokenPairs.local[tokenPair.RemoteDomain][tokenPair.RemoteToken] == tokenPair.LocalToken && st.tokenPairs.rdom[tokenPair.RemoteDomain][tokenPair.RemoteToken] == tokenPair.RemoteDomain && st.tokenPairs.rtok[tokenPair.RemoteDomain][tokenPair.RemoteToken] == tokenPair.RemoteToken
-//@ modifies st.tokenPairs[tokenPair.RemoteDomain][tokenPair.RemoteToken]
+//@ modifies st.tokenPairs[tokenPair.RemoteDomain][tokenPair.RemoteToken], st.pairList, st.nPairs
 
 //@ func (Keeper) DeleteTokenPair(ctx, remoteDomain, remoteToken)
 //@ layer L2
 //@ ensures[del] !st.tokenPairs.has[remoteDomain][remoteToken]
-//@ modifies st.tokenPairs[remoteDomain][remoteToken]
+//@ modifies st.tokenPairs[remoteDomain][remoteToken], st.pairList, st.nPairs
 
 // ---- used nonces
 
@@ -214,7 +214,7 @@ package keeper
 //@ layer L2
 //@ ensures[C02.set] st.usedNonces.has[nonce.SourceDomain][nonce.Nonce]
 //@ ensures[set.val] st.usedNonces.dom[nonce.SourceDomain][nonce.Nonce] == nonce.SourceDomain && st.usedNonces.nonce[nonce.SourceDomain][nonce.Nonce] == nonce.Nonce
-//@ modifies st.usedNonces[nonce.SourceDomain][nonce.Nonce]
+//@ modifies st.usedNonces[nonce.SourceDomain][nonce.Nonce], st.nonceList, st.nNonces
 
 // ---- remote token messengers
 
@@ -228,12 +228,12 @@ package keeper
 //@ func (Keeper) SetRemoteTokenMessenger(ctx, remoteTokenMessenger)
 //@ layer L2
 //@ ensures[set] st.messengers.has[remoteTokenMessenger.DomainId] && st.messengers.addr[remoteTokenMessenger.DomainId] == remoteTokenMessenger.Address && st.messengers.dom[remoteTokenMessenger.DomainId] == remoteTokenMessenger.DomainId
-//@ modifies st.messengers[remoteTokenMessenger.DomainId]
+//@ modifies st.messengers[remoteTokenMessenger.DomainId], st.msgrList, st.nMsgrs
 
 //@ func (Keeper) DeleteRemoteTokenMessenger(ctx, remoteDomain)
 //@ layer L2
 //@ ensures[del] !st.messengers.has[remoteDomain]
-//@ modifies st.messengers[remoteDomain]
+//@ modifies st.messengers[remoteDomain], st.msgrList, st.nMsgrs
 
 // ======================================================================= history lemmas (L4)
 // A `step` clause must hold over (old state, new state, msg) at every successful return of every MsgServer
@@ -335,7 +335,7 @@ package keeper
 //@ ensures[C10.total C12.admin] msg.From == old(st.owner.val) && !old(st.messengers.has[msg.DomainId]) && len(msg.Address) == 32 && !emitErr(0) ==> err == nil
 //@ emits[C15.event]    [RemoteTokenMessengerAdded{Domain: msg.DomainId, RemoteTokenMessenger: msg.Address}]
 //@ calls[C04.others C05.others] []
-//@ modifies[C15.frame C19.frame C11.frame C12.frame C13.frame C02.frame C07.frame] st.messengers[msg.DomainId]
+//@ modifies[C15.frame C19.frame C11.frame C12.frame C13.frame C02.frame C07.frame] st.messengers[msg.DomainId], st.msgrList, st.nMsgrs
 
 //@ func (msgServer) RemoveRemoteTokenMessenger(goCtx, msg) (resp, err)
 //@ requires inited()
@@ -346,7 +346,7 @@ package keeper
 //@ ensures[C10.total C12.admin] msg.From == old(st.owner.val) && old(st.messengers.has[msg.DomainId]) && !emitErr(0) ==> err == nil
 //@ emits[C15.event]    [RemoteTokenMessengerRemoved{Domain: msg.DomainId, RemoteTokenMessenger: old(st.messengers.addr[msg.DomainId])}]
 //@ calls[C04.others C05.others] []
-//@ modifies[C15.frame C19.frame C11.frame C12.frame C13.frame C02.frame C07.frame] st.messengers[msg.DomainId]
+//@ modifies[C15.frame C19.frame C11.frame C12.frame C13.frame C02.frame C07.frame] st.messengers[msg.DomainId], st.msgrList, st.nMsgrs
 
 // ---- attester manager actions (C13)
 
@@ -438,7 +438,7 @@ package keeper
 //@ ensures[C10.total C12.admin] msg.From == old(st.tokenController.val) && len(msg.RemoteToken) == 32 && !old(st.tokenPairs.has[msg.RemoteDomain][msg.RemoteToken]) && !emitErr(0) ==> err == nil
 //@ emits[C15.event]    [TokenPairLinked{LocalToken: lower(msg.LocalToken), RemoteDomain: msg.RemoteDomain, RemoteToken: msg.RemoteToken}]
 //@ calls[C04.others C05.others] []
-//@ modifies[C15.frame C19.frame C11.frame C12.frame C13.frame C02.frame C07.frame] st.tokenPairs[msg.RemoteDomain][msg.RemoteToken]
+//@ modifies[C15.frame C19.frame C11.frame C12.frame C13.frame C02.frame C07.frame] st.tokenPairs[msg.RemoteDomain][msg.RemoteToken], st.pairList, st.nPairs
 
 //@ func (msgServer) UnlinkTokenPair(goCtx, msg) (resp, err)
 //@ requires inited()
@@ -450,7 +450,7 @@ package keeper
 //@ ensures[C10.total C12.admin] msg.From == old(st.tokenController.val) && len(msg.RemoteToken) == 32 && old(st.tokenPairs.has[msg.RemoteDomain][msg.RemoteToken]) && !emitErr(0) ==> err == nil
 //@ emits[C15.event]    [TokenPairUnlinked{LocalToken: old(st.tokenPairs.local[msg.RemoteDomain][msg.RemoteToken]), RemoteDomain: msg.RemoteDomain, RemoteToken: msg.RemoteToken}]
 //@ calls[C04.others C05.others] []
-//@ modifies[C15.frame C19.frame C11.frame C12.frame C13.frame C02.frame C07.frame] st.tokenPairs[msg.RemoteDomain][msg.RemoteToken]
+//@ modifies[C15.frame C19.frame C11.frame C12.frame C13.frame C02.frame C07.frame] st.tokenPairs[msg.RemoteDomain][msg.RemoteToken], st.pairList, st.nPairs
 
 //@ func (msgServer) SetMaxBurnAmountPerMessage(goCtx, msg) (resp, err)
 //@ requires inited()
@@ -460,7 +460,7 @@ package keeper
 //@ ensures[C10.total C12.admin] msg.From == old(st.tokenController.val) && !emitErr(0) ==> err == nil
 //@ emits[C15.event]    [SetBurnLimitPerMessage{Token: lower(msg.LocalToken), BurnLimitPerMessage: msg.Amount}]
 //@ calls[C04.others C05.others] []
-//@ modifies[C15.frame C19.frame C11.frame C12.frame C13.frame C02.frame C07.frame] st.burnLimits[lower(msg.LocalToken)]
+//@ modifies[C15.frame C19.frame C11.frame C12.frame C13.frame C02.frame C07.frame] st.burnLimits[lower(msg.LocalToken)], st.limitList, st.nLimits
 
 // ======================================================================= L3: message flows
 // Success conditions are exact (<==>): every condition of the property statements appears once, with the
@@ -610,7 +610,7 @@ package keeper
 //@ ensures[C14.mint]  depFails(0) && toModule(msg.Message) ==> err != nil
 //@ calls[C04.mint C14.mint C05.others] (len(msg.Message) >= 116 && toModule(msg.Message) ? [Mint{From: bech32(moduleAddr), Address: bech32(msg.Message[164:184]), Denom: mintDenom(old(st), msg.Message), Amount: u256be(msg.Message, 184)}] : [])
 //@ emits[C04.events C14.events C05.others] (len(msg.Message) >= 116 && toModule(msg.Message) ? [MintAndWithdraw{MintRecipient: msg.Message[152:184], Amount: u256be(msg.Message, 184), MintToken: mintDenom(old(st), msg.Message)}, MessageReceived{Caller: msg.From, SourceDomain: u32be(msg.Message, 4), Nonce: u64be(msg.Message, 12), Sender: msg.Message[20:52], MessageBody: msg.Message[116:]}] : [MessageReceived{Caller: msg.From, SourceDomain: u32be(msg.Message, 4), Nonce: u64be(msg.Message, 12), Sender: msg.Message[20:52], MessageBody: msg.Message[116:]}])
-//@ modifies[C15.frame C02.frame C11.frame C12.frame C13.frame C07.frame] st.usedNonces[u32be(msg.Message, 4)][u64be(msg.Message, 12)]
+//@ modifies[C15.frame C02.frame C11.frame C12.frame C13.frame C07.frame] st.usedNonces[u32be(msg.Message, 4)][u64be(msg.Message, 12)], st.nonceList, st.nNonces
 
 // ---- replacements (C09)
 
